@@ -124,6 +124,8 @@ def job_score(P, kind, C, D, rU, rV):
     for S in (1, 2, 3):
         P.run("score-S%d" % S, sc_score, dict(kind=kind, C=C, D=D, rU=rU, rV=rV, S=S, twice=(S == 2)), linalg=_la(rU), validate=1)
     for hist in ("setter", "update_U"):
+        if hist == "update_U" and C * D * rU > 4:
+            continue  # U = A2 inv(A1) inside the posterior precision exceeds the normal-form budget
         P.run("score-after-" + hist, sc_score, dict(kind=kind, C=C, D=D, rU=rU, rV=rV, S=2, history=hist), linalg=_la(rU), validate=1)
 
 
